@@ -4,6 +4,7 @@
 (b) the reference model itself is validated against rustc with borrow probes (thorough, and a sample in quick);
 (c) the garbage-collected backends must attach at least those inputs: edge lists parsed from .mjs / .g.dart / .kt and
     nb::keep_alive<0,N> from the nanobind module."""
+import json
 import os
 import random
 import re
@@ -296,7 +297,8 @@ def main(tier, seed):
     common.build_tool()
     hd = common.cargo_build_crate(common.instantiate_crate("hirdump"), "stable", bin_name="hirdump")
     stats = {"signatures": 0, "output_lifetimes": 0, "edges_expected": 0, "backend_edge_lists_checked": 0, "rustc_probe_pairs": 0, "rustc_model_disagreements": 0,
-             "rejected_by_gate": 0, "struct_getters_checked": 0}
+             "rejected_by_gate": 0, "struct_getters_checked": 0, "gc_calls": 0, "gc_objects_observed": 0, "gc_buffers_observed": 0, "gc_must_stay_alive_checked": 0,
+             "gc_collected_unborrowed": 0, "gc_calls_without_result_object": 0, "gc_released_after_results_dropped": 0, "gc_finalizer_exceptions_observed": 0}
     shapes = set()
 
     def one(bi):
@@ -433,6 +435,58 @@ def main(tier, seed):
                     elif es and holds_borrow(s) and len(re.findall(r"\b%sEdges\b" % ol, text)) < 2 and not (
                             b == "kotlin" and re.search(r"&'%s Op" % ol, s.ret) and len(re.findall(r"\bselfEdges\b", text)) >= 3):
                         res["viol"].append((s, "%s computes %sEdges but never hands it to the returned object" % (b, ol)))
+        # ---- (d) dynamic: V8 liveness of everything the returned object may borrow from (both JS ABIs)
+        import jsgc
+        sizes = jsgc.unique_sizes(sigs)
+        for abi in ("legacy", "spec"):
+            out = os.path.join(d, "jsgc_" + abi)
+            rc, o2, e2 = toolrun.run_tool("js", src, out, config_file=os.path.join(d, "cfg_js.toml"), configs=["js.abi=%s" % abi])
+            kind, det = toolrun.classify_tool(rc, e2)
+            if kind != "ok":
+                res["inconc"].append("js (%s) for the GC leg: tool %s: %s" % (abi, kind, str(det)[:160]))
+                continue
+            cases, musts = [], {}
+            for s in sigs:
+                c, must = jsgc.case_for(s, expected_edges, sizes[s.holder])
+                cases.append(c)
+                musts[s.holder] = must
+            jsgc.write_harness(out, cases)
+            rc, o3, e3 = run(["node", "--expose-gc", os.path.join(out, "vf_gc.mjs")], timeout=600)
+            if rc != 0 or not o3.strip():
+                res["inconc"].append("GC driver (%s) failed: rc=%s %s" % (abi, rc, e3[-300:]))
+                continue
+            rep = json.loads(o3.strip().splitlines()[-1])
+            res["st"]["gc_released_after_results_dropped"] += rep["released_after_results_dropped"]
+            res["st"]["gc_finalizer_exceptions_observed"] += len(rep.get("uncaught", []))
+            res.setdefault("uncaught", []).extend(rep.get("uncaught", [])[:2])
+            collected_unborrowed = 0
+            for rec in rep["report"]:
+                s = by_holder[rec["holder"]]
+                if rec.get("harness_error"):
+                    res["inconc"].append("GC driver (%s) %s/%s: %s" % (abi, rec["holder"], rec["mode"], rec["harness_error"][:200]))
+                    continue
+                res["st"]["gc_calls"] += 1
+                must = musts[rec["holder"]][rec["mode"]]
+                if must and not rec["hasResult"]:
+                    res["st"]["gc_calls_without_result_object"] += 1
+                    continue
+                mustset = {tuple(x) for x in must}
+                for name, alive in rec["alive"].items():
+                    res["st"]["gc_objects_observed"] += 1
+                    if ("obj", name) in mustset:
+                        res["st"]["gc_must_stay_alive_checked"] += 1
+                        if not alive or rec["destroyed"].get(name):
+                            res["viol"].append((s, "js.abi=%s, V8: after dropping every reference except the returned value and forcing GC, argument `%s` was %s although the result may borrow from it (%s arm)" % (
+                                abi, name, "destroyed (its _destroy export ran)" if rec["destroyed"].get(name) else "garbage-collected", rec["mode"])))
+                    elif not alive:
+                        collected_unborrowed += 1
+                for name, freed in rec["freed"].items():
+                    res["st"]["gc_buffers_observed"] += 1
+                    if ("buf", name) in mustset:
+                        res["st"]["gc_must_stay_alive_checked"] += 1
+                        if freed:
+                            res["viol"].append((s, "js.abi=%s, V8: the wasm buffer of `%s` was handed to diplomat_free while the returned value (%s arm) is still alive and may borrow from it" % (abi, name, rec["mode"])))
+            res["st"]["gc_collected_unborrowed"] += collected_unborrowed
         return res
 
     results = pmap(one, range(nbatch))
@@ -444,19 +498,36 @@ def main(tier, seed):
             chk.inconc("batch %d: %s" % (bi, m))
         for s, msg in [v for v in r["viol"] if v[0] is None][:3]:
             chk.violation("b%d_struct" % bi, msg, {"dir": toolrun.workdir("c04", "b%d" % bi)})
-        for s, msg in [v for v in r["viol"] if v[0] is not None][:4]:
+        sv = [v for v in r["viol"] if v[0] is not None]
+        picked, seen_cat = [], {}
+        for v in sv:                      # at most two witnesses per kind of observation per batch
+            cat = "v8" if "V8:" in v[1] else ("analysis" if "borrow analysis" in v[1] or "borrow map" in v[1] else v[1].split(" ")[0])
+            seen_cat[cat] = seen_cat.get(cat, 0) + 1
+            if seen_cat[cat] <= 2:
+                picked.append(v)
+        for s, msg in picked:
             chk.violation("b%d_%s" % (bi, s.holder), "`%s`: %s" % (sig_source(s).strip().splitlines()[-2].strip(), msg),
                           {"signature": sig_source(s), "declared_bounds": sorted(s.bounds), "implied_bounds": sorted(s.implied), "expected": {k: sorted(v) for k, v in expected_edges(s).items()},
                            "dir": toolrun.workdir("c04", "b%d" % bi)})
-    chk.evaluations = stats["struct_getters_checked"] + stats["output_lifetimes"] + stats["backend_edge_lists_checked"] + stats["rustc_probe_pairs"]
+    if stats["gc_calls"] and not stats["gc_collected_unborrowed"]:
+        chk.inconc("GC leg: V8 never collected an argument that nothing borrows from; the liveness observations are vacuous")
+    chk.evaluations = stats["struct_getters_checked"] + stats["output_lifetimes"] + stats["backend_edge_lists_checked"] + stats["rustc_probe_pairs"] + stats["gc_must_stay_alive_checked"]
     chk.distinct = shapes
     chk.rule = ("seeded method signatures over <= 4 method lifetimes (+ an impl lifetime on the receiver in a quarter of them) with random declared bounds, parameters "
                 "&'x Op / &'x OpL<'y,'z> / OpB with a definition-site bound / StL<'x,'y> / StB / slices / anonymous lifetimes, returns over references, boxed "
                 "lifetime-carrying opaques, borrowing structs and out-structs, Option and Result (incl. borrowing Err); 24 signatures per crate. Exactness through the "
                 "public API; superset + hand-over of the edge array for js, dart, kotlin; keep_alive indices for nanobind; the outlives model is cross-checked against "
-                "rustc borrow probes (every batch in thorough, every fourth in quick; a disagreement is inconclusive, never a violation). distinct_nontrivial = distinct "
+                "rustc borrow probes (every batch in thorough, every fourth in quick; a disagreement is inconclusive, never a violation). Dynamic leg: every signature is "
+                "*called* through the generated JS (legacy and spec ABI) against a stub wasm module under node --expose-gc; only the returned object is kept, full GCs "
+                "are forced, and every argument object (WeakRef + destructor export) and argument buffer (diplomat_free log) the result may borrow from must still be alive, "
+                "for the Ok/Some arm and, where the Err type borrows, for the Err arm. distinct_nontrivial = distinct "
                 "(#lifetimes, #bounds, parameter kinds, return form, impl lifetime, named self) shapes.")
     chk.extra = dict(stats, batches=nbatch)
+    unc = [u for r in results for u in r.get("uncaught", [])]
+    if unc:
+        # not a violation of this property (nothing is freed early; the buffers are simply never freed): recorded as an observation
+        chk.extra["observation_finalizer_exception"] = {"sample": unc[0], "what": "CleanupArena.createWith registers the unbound method `self.free` with the FinalizationRegistry; "
+                                                        "when the arena is collected the callback runs with `this === undefined` and throws (uncaught exception in node; buffers are never freed)"}
     for r in results[:1]:
         pass
     rng = random.Random("c04/%s/%s" % (seed, 0))
@@ -464,5 +535,5 @@ def main(tier, seed):
     for s in ex:
         chk.sample({"signature": sig_source(s).strip().splitlines()[-2].strip(), "expected_edges": {k: sorted(v) for k, v in expected_edges(s).items()}})
     chk.assumptions = ["Dart/Kotlin/Python edges are read from generated text, not executed", "optional struct/slice parameters borrowed by the output are excluded (they crash the managed backends: C15 known finding F2)",
-                       "the dynamic JS leg (V8 GC liveness on a real wasm32 module) is part of C08's wasm harness when available"]
+                       "the dynamic JS leg runs against a stub wasm module (exports return fresh pointers, receive buffers are pattern-filled): it observes the JS side's keep-alive behaviour, not Rust's"]
     return chk.finish()
